@@ -276,6 +276,19 @@ type ReDKG struct {
 
 // GenerateReDKGMessage returns a ReDKG message based on an append log dump. newCommPubKeys will be used
 // add new public communication keys to each participant; this value can be nil.
+// IsSigningEvent tells whether a board message belongs to the signing of batches
+func IsSigningEvent(event fsm.Event) bool {
+	switch event {
+	case signing_proposal_fsm.EventSigningStart,
+		signing_proposal_fsm.EventSigningPartialSignReceived,
+		signing_proposal_fsm.EventSigningPartialSignError,
+		SignatureReconstructed,
+		SignatureReconstructionFailed:
+		return true
+	}
+	return false
+}
+
 func GenerateReDKGMessage(messages []storage.Message, newCommPubKeys map[string][]byte) (*ReDKG, error) {
 	var reDKG ReDKG
 
@@ -303,8 +316,12 @@ func GenerateReDKGMessage(messages []storage.Message, newCommPubKeys map[string]
 				})
 			}
 		}
-		if fsm.Event(msg.Event) == signing_proposal_fsm.EventSigningStart {
-			break
+		// the signing of batches is not part of what is restored. Its messages are left out one by
+		// one: ending the file at the first signing proposal let a single junk message of that kind
+		// (another round's batch on a shared board, a premature or forged proposal that every node
+		// refused) cut the key generation short
+		if IsSigningEvent(fsm.Event(msg.Event)) {
+			continue
 		}
 
 		reDKG.Messages = append(reDKG.Messages, msg)
